@@ -1340,6 +1340,7 @@ class ManifestRecursiveLoader:
                 self.updated_manifests.add(mpath)
 
         # check for removed files
+        removed_manifests = []
         for relpath, me in entry_dict.items():
             mpath, fe = me
             if fe.tag == 'IGNORE':
@@ -1347,6 +1348,14 @@ class ManifestRecursiveLoader:
 
             self.loaded_manifests[mpath].entries.remove(fe)
             self.updated_manifests.add(mpath)
+            if fe.tag == 'MANIFEST':
+                removed_manifests.append(relpath)
+
+        # the Manifests that are no longer referenced are not part
+        # of the tree anymore, so there is nothing to save for them
+        for mpath in removed_manifests:
+            self.updated_manifests.discard(mpath)
+            self.loaded_manifests.pop(mpath, None)
 
     def create_manifest(self, path):
         """
